@@ -200,15 +200,21 @@ impl Item {
 
     /// Returns the position of pattern within item or Err if pattern is not
     /// part of item
-    pub fn contains(item: &Item, pattern: &Item, mut depth: usize) -> Result<usize, ()> {
+    pub fn contains(item: &Item, pattern: &Item, depth: usize) -> Result<usize, ()> {
+        let mut points_seen = depth;
+        Item::contains_from(item, pattern, &mut points_seen)
+    }
+
+    /// Depth-first search that keeps counting points across nested lists.
+    fn contains_from(item: &Item, pattern: &Item, points_seen: &mut usize) -> Result<usize, ()> {
         if Item::equals(item, pattern) {
-            Ok(depth)
+            Ok(*points_seen)
         } else {
             match item {
                 Item::List { items } => {
                     for i in 0..items.size() {
-                        depth += 1;
-                        let next = Item::contains(items.get(i).unwrap(), pattern, depth);
+                        *points_seen += 1;
+                        let next = Item::contains_from(items.get(i).unwrap(), pattern, points_seen);
                         match next {
                             Ok(pattern_idx) => return Ok(pattern_idx),
                             Err(()) => (),
